@@ -879,6 +879,12 @@ func isSafeForMultilineReverseSuffix(re *syntax.Regexp) bool {
 				hasLineAnchor = true
 				continue
 			}
+			// The searcher assumes that a match lies within ONE line (it starts at the
+			// line start before the suffix). `\s`, `[^a]`, `(?s:.)` or a literal "\n"
+			// let a match span lines, e.g. `(?m)^.*\sphp` on "\nphp".
+			if canMatchNewline(sub) {
+				return false
+			}
 			if isWildcardOp(sub) {
 				hasWildcard = true
 				continue
@@ -896,6 +902,33 @@ func isSafeForMultilineReverseSuffix(re *syntax.Regexp) bool {
 	default:
 		return false
 	}
+}
+
+// canMatchNewline reports whether re can consume a '\n' byte.
+func canMatchNewline(re *syntax.Regexp) bool {
+	switch re.Op {
+	case syntax.OpAnyChar:
+		return true
+	case syntax.OpLiteral:
+		for _, r := range re.Rune {
+			if r == '\n' {
+				return true
+			}
+		}
+	case syntax.OpCharClass:
+		for i := 0; i+1 < len(re.Rune); i += 2 {
+			if re.Rune[i] <= '\n' && '\n' <= re.Rune[i+1] {
+				return true
+			}
+		}
+	default:
+		for _, sub := range re.Sub {
+			if canMatchNewline(sub) {
+				return true
+			}
+		}
+	}
+	return false
 }
 
 // isWildcardOp checks if the op is a wildcard pattern (.*, .+, or [charclass]+)
